@@ -1,6 +1,7 @@
 #!/usr/bin/env python3
 """Compare Go and Lean result streams per id. usage: compare.py cases go lean [max_show]"""
 import json, sys
+sys.setrecursionlimit(20000)
 def load(p):
     d = {}
     with open(p) as f:
